@@ -434,7 +434,14 @@ pub fn layout_caps(f: &mut PciFunc, caps: &[CapSpec], reverse: bool) -> Vec<u8> 
 }
 
 pub fn capability_walk_case(caps: &[CapSpec], reverse: bool) -> Vec<(String, String)> {
+    capability_walk_case_status(caps, reverse, 0)
+}
+
+/// The same with further bits set in the function's status register (DEVSEL timing, 66 MHz,
+/// interrupt status, error bits): only the capabilities-list bit decides whether there is a list.
+pub fn capability_walk_case_status(caps: &[CapSpec], reverse: bool, status_extra: u16) -> Vec<(String, String)> {
     let mut f = PciFunc::new(0x1af4, 0x1042);
+    f.status = status_extra & !0x10;
     let offs = layout_caps(&mut f, caps, reverse);
     let bus = new_bus(f, DF);
     bus.borrow_mut().reads_budget = Some(10_000);
